@@ -67,14 +67,14 @@ func init() {
 			{Name: "unsubscribe reads the routing table without the lock", File: wsConnGo, Rule: "C18-R2", Key: "unsubscribe/read:wsConnection.subs",
 				Old: "\tc.subsMu.Lock()\n\t_, exists := c.subs[id]\n\tc.subsMu.Unlock()\n", New: "\t_, exists := c.subs[id]\n"},
 			{Name: "coalesced dial runs with the transport lock held", File: wsTransportGo, Rule: "C18-R2", Key: "getOrDial/outside-locks:io:WSTransport.dial",
-				Old: "\tt.dialing[key] = result\n\tt.mu.Unlock()\n\n\tconn, err := t.dial(ctx, key, opts)\n\n\tresult.conn = conn\n\tresult.err = err\n\tclose(result.done)\n\n\tt.mu.Lock()\n",
-				New: "\tt.dialing[key] = result\n\n\tconn, err := t.dial(ctx, key, opts)\n\n\tresult.conn = conn\n\tresult.err = err\n\tclose(result.done)\n\n"},
+				Old: "\tt.dialing[key] = result\n\tt.mu.Unlock()\n\n\tconn, err := t.dial(ctx, key, opts)\n\n\tresult.conn = conn\n\tresult.err = err\n\tresult.diallerGone = err != nil && ctx.Err() != nil\n\tclose(result.done)\n\n\tt.mu.Lock()\n",
+				New: "\tt.dialing[key] = result\n\n\tconn, err := t.dial(ctx, key, opts)\n\n\tresult.conn = conn\n\tresult.err = err\n\tresult.diallerGone = err != nil && ctx.Err() != nil\n\tclose(result.done)\n\n"},
 			{Name: "SSE connection removed from the table without the lock", File: sseTransportGo, Rule: "C18-R2", Key: "SSETransport.removeConn/write:SSETransport.conns",
 				Old: "\tt.mu.Lock()\n\tdelete(t.conns, conn)\n\tt.mu.Unlock()\n", New: "\tdelete(t.conns, conn)\n"},
 			{Name: "shutdown no longer guarded by the compare-and-swap", File: wsConnGo, Rule: "C18-R3", Key: "teardown/once:",
 				Old: "\tif !c.closed.CompareAndSwap(false, true) {\n\t\treturn\n\t}\n\tc.teardown(err)\n", New: "\tc.closed.Store(true)\n\tc.teardown(err)\n"},
 			{Name: "waiters woken before the dial error is stored", File: wsTransportGo, Rule: "C18-R3", Key: "publish-before-close:err",
-				Old: "\tresult.err = err\n\tclose(result.done)\n", New: "\tclose(result.done)\n\tresult.err = err\n"},
+				Old: "\tresult.err = err\n\tresult.diallerGone = err != nil && ctx.Err() != nil\n\tclose(result.done)\n", New: "\tresult.diallerGone = err != nil && ctx.Err() != nil\n\tclose(result.done)\n\tresult.err = err\n"},
 			{Name: "early return on dial error before waking the waiters", File: wsTransportGo, Rule: "C18-R3", Key: "exit-after-create",
 				Old: "\tconn, err := t.dial(ctx, key, opts)\n\n\tresult.conn = conn\n", New: "\tconn, err := t.dial(ctx, key, opts)\n\tif err != nil {\n\t\treturn nil, err\n\t}\n\n\tresult.conn = conn\n"},
 			{Name: "failed dial stored in the connection table", File: wsTransportGo, Rule: "C18-R3", Key: "publish-conn-only-on-success",
